@@ -28,3 +28,7 @@ from . import gen_ifaces; GENERATORS["GenIfaces"] = gen_ifaces.generate
 from . import gen_cylmask; GENERATORS["GenCylMask"] = gen_cylmask.generate
 from . import gen_l2arith; GENERATORS["GenL2Arith"] = gen_l2arith.generate
 from . import gen_flat; GENERATORS["GenFlat"] = gen_flat.generate
+from . import gen_dictarith; GENERATORS["GenDictArith"] = gen_dictarith.generate
+from . import gen_shapes; GENERATORS["GenShapes"] = gen_shapes.generate
+from . import gen_forest; GENERATORS["GenForest"] = gen_forest.generate
+from . import gen_pathflow; GENERATORS["GenPathFlow"] = gen_pathflow.generate
